@@ -224,7 +224,12 @@ func (txn *writeTxnState) addDeleteTracker(meta TableMeta, trackerName string, d
 		return tableError(meta.Name(), ErrTableNotLockedForWriting)
 	}
 
-	_, _, updated := table.deleteTrackers.Insert([]byte(trackerName), dt)
+	// Commit without notifying: nothing watches the delete trackers and the
+	// watch channels of the committed tree must not be closed as this
+	// transaction may still be aborted.
+	dtTxn := table.deleteTrackers.Txn()
+	dtTxn.Insert([]byte(trackerName), dt)
+	updated := dtTxn.Commit()
 	table.deleteTrackers = &updated
 	txn.db.metrics.DeleteTrackerCount(meta.Name(), table.deleteTrackers.Len())
 
